@@ -44,6 +44,8 @@ struct AccCase {
 enum Target {
     Abs(u64),
     StackRel(i64),
+    /// fixed-metadata VM: relative to the internal buffer r1 points to (16 bytes for offsets (0, 8))
+    R1Rel(i64),
 }
 
 struct Layout {
@@ -96,6 +98,7 @@ fn build_prog(c: &AccCase, pkt_base: u64) -> Vec<u8> {
             // base register r2 = target - off
             match c.target {
                 Target::Abs(_) if c.direct == 3 => {} // r1 (context pointer) itself is the base
+                Target::R1Rel(_) => {}
                 Target::Abs(t) => {
                     let b = t.wrapping_sub(c.off as i64 as u64);
                     if c.warm && c.acc != Acc::Xadd {
@@ -179,8 +182,8 @@ fn stack_fold(stack: &[u8; 512]) -> u64 {
 }
 
 fn make_layout(rng: &mut Rng, cl: bool) -> Layout {
-    let kind = if rng.chance(1, 3) { Kind::Mbuff } else { Kind::Raw };
-    let plen = *rng.pick(&[0usize, 1, 7, 8, 9, 64, 4096]);
+    let kind = *rng.pick(&[Kind::Mbuff, Kind::Mbuff, Kind::Raw, Kind::Raw, Kind::Raw, Kind::Fixed, Kind::Fixed, Kind::NoData]);
+    let plen = if kind == Kind::NoData { 0 } else { *rng.pick(&[0usize, 1, 7, 8, 9, 64, 4096]) };
     let end_aligned = rng.chance(1, 2);
     let pkt = if plen == 0 { None } else { Some(GuardBuf::new(plen, end_aligned, cl)) };
     let mbuff = if kind == Kind::Mbuff {
@@ -281,6 +284,21 @@ fn make_layout(rng: &mut Rng, cl: bool) -> Layout {
     Layout { kind, pkt, mbuff, extra, ranges, desc }
 }
 
+/// An access relative to the fixed VM's internal buffer (offsets (0, 8): it must hold two pointers,
+/// 16 bytes; an implementation may allocate more, which the interpreter hook reports).
+fn r1rel_expectation(d: i64, w: i64, acc: Acc, hook_len: Option<i64>) -> Expect {
+    if d < 0 {
+        return Expect::Refused;
+    }
+    if d + w <= 16 {
+        return if acc == Acc::Xadd && d % w != 0 { Expect::Either } else { Expect::Performed };
+    }
+    match hook_len {
+        Some(l) if d + w > l.max(16) => Expect::Refused,
+        _ => Expect::Either,
+    }
+}
+
 fn boundary_targets(start: u64, len: u64) -> Vec<u64> {
     let mut v = Vec::new();
     for d in -9i64..=9 {
@@ -354,6 +372,11 @@ pub fn run(a: &Args, rep: &mut Report, cl: bool) {
         for d in (-521i64..=-503).chain(-9..=9) {
             targets.push(("stack".into(), Target::StackRel(d)));
         }
+        if l.kind == Kind::Fixed {
+            for d in -9i64..=25 {
+                targets.push(("fixed-internal-buffer".into(), Target::R1Rel(d)));
+            }
+        }
         for k in 0..9u64 {
             targets.push(("null".into(), Target::Abs(k)));
             targets.push(("wrap".into(), Target::Abs(u64::MAX - k)));
@@ -398,10 +421,12 @@ pub fn run(a: &Args, rep: &mut Report, cl: bool) {
                     // targets near the region r1 points to: a third of them addressed through r1 itself
                     let r1_base = match l.kind {
                         Kind::Mbuff => l.mbuff.as_ref().map(|m| m.addr()),
-                        _ => l.pkt.as_ref().map(|p| p.addr()),
+                        Kind::Raw => l.pkt.as_ref().map(|p| p.addr()),
+                        _ => None,
                     };
                     let (off, direct, tname) = match (t, r1_base) {
                         (Target::StackRel(d), _) if rng.chance(1, 2) => (d as i16, 1 + rng.below(2) as u8, "stack-direct".to_string()),
+                        (Target::R1Rel(d), _) => (d as i16, 3, tname),
                         (Target::Abs(tt), Some(b)) if (tt.wrapping_sub(b) as i64) >= i16::MIN as i64 && (tt.wrapping_sub(b) as i64) <= i16::MAX as i64 && rng.chance(1, 3) => {
                             (tt.wrapping_sub(b) as i64 as i16, 3, format!("{tname}-via-r1"))
                         }
@@ -500,6 +525,8 @@ pub fn run(a: &Args, rep: &mut Report, cl: bool) {
             out.push(st);
             out.extend_from_slice(&val.to_le_bytes());
             out.extend_from_slice(&hooks::stack_addr().to_le_bytes());
+            out.extend_from_slice(&hooks::mbuff().0.to_le_bytes());
+            out.extend_from_slice(&hooks::mbuff().1.to_le_bytes());
             let after = arenas(&l);
             let mut changes: Vec<(u64, u8)> = Vec::new();
             for ((base, b), (_, a2)) in before.iter().zip(after.iter()) {
@@ -546,6 +573,7 @@ pub fn run(a: &Args, rep: &mut Report, cl: bool) {
                             Target::StackRel(d) => {
                                 if -512 <= d && d + c.width as i64 <= 0 { if c.acc == Acc::Xadd && d.rem_euclid(c.width as i64) != 0 { Expect::Either } else { Expect::Performed } } else { Expect::Refused }
                             }
+                            Target::R1Rel(d) => r1rel_expectation(d, c.width as i64, c.acc, None),
                         };
                         rep.count("traps");
                         let nchg = extra.first().copied().unwrap_or(0);
@@ -576,6 +604,8 @@ pub fn run(a: &Args, rep: &mut Report, cl: bool) {
             let st = rec[0];
             let val = u64::from_le_bytes(rec[1..9].try_into().unwrap());
             let stack_addr = u64::from_le_bytes(rec[9..17].try_into().unwrap());
+            let (hook_mbuff, hook_mbuff_len) = (u64::from_le_bytes(rec[17..25].try_into().unwrap()), u64::from_le_bytes(rec[25..33].try_into().unwrap()));
+            let rec = &rec[16..];
             let nch = rec[17] as usize;
             let mut changes: Vec<(u64, u8)> = Vec::new();
             for k in 0..nch {
@@ -586,20 +616,23 @@ pub fn run(a: &Args, rep: &mut Report, cl: bool) {
             let ml = rec[mo] as usize;
             let msg = String::from_utf8_lossy(&rec[mo + 1..mo + 1 + ml]).to_string();
             // effective address
-            let addr = match c.target {
-                Target::Abs(t) => t,
-                Target::StackRel(d) => stack_addr.wrapping_add(512).wrapping_add(d as u64),
-            };
             let mut all = regs.clone();
             // Cranelift: the stack lives in the native stack of the child and has no hook; stack
             // targets are relative to r10 by construction, so use a fictitious base for them
             let stack_addr = if cl { 0x10_0000_0000 } else { stack_addr };
+            // the fixed VM's internal buffer: real address from the hook (interpreter), fictitious under Cranelift
+            let r1_base = if cl || hook_mbuff == 0 { 0x20_0000_0000 } else { hook_mbuff };
             let addr = match c.target {
                 Target::Abs(t) => t,
                 Target::StackRel(d) => stack_addr.wrapping_add(512).wrapping_add(d as u64),
+                Target::R1Rel(d) => r1_base.wrapping_add(d as u64),
             };
             all.push(("stack".into(), stack_addr, 512));
-            let exp = expectation(&all, addr, c.width as u64, c.acc);
+            let exp = match c.target {
+                Target::R1Rel(d) => r1rel_expectation(d, c.width as i64, c.acc, if cl { None } else { Some(hook_mbuff_len as i64) }),
+                _ => expectation(&all, addr, c.width as u64, c.acc),
+            };
+            let in_r1rel = matches!(c.target, Target::R1Rel(_));
             rep.case(Some(crate::util::fnv(prog) ^ crate::util::fnv(l.desc.as_bytes())));
             rep.count(match exp {
                 Expect::Performed => "expect_performed",
@@ -637,7 +670,23 @@ pub fn run(a: &Args, rep: &mut Report, cl: bool) {
                     // verify the effect
                     let in_stack = addr >= stack_addr && addr < stack_addr + 512;
                     if !is_store {
-                        if !in_stack {
+                        if in_r1rel {
+                            // the buffer holds the packet's start and end addresses (offsets (0, 8))
+                            if let (Some(p), Target::R1Rel(d)) = (&l.pkt, c.target) {
+                                if d >= 0 && d + c.width as i64 <= 16 {
+                                    let mut img = [0u8; 16];
+                                    img[..8].copy_from_slice(&p.addr().to_le_bytes());
+                                    img[8..].copy_from_slice(&(p.addr() + p.len() as u64).to_le_bytes());
+                                    let mut want = 0u64;
+                                    for k in 0..c.width as usize {
+                                        want |= (img[d as usize + k] as u64) << (8 * k);
+                                    }
+                                    if want != val {
+                                        rep.violation(&format!("{prop}:wrong-load:{sigbase}"), format!("load from the internal buffer at +{d} returned {val:#x}, expected {want:#x}"), w.clone());
+                                    }
+                                }
+                            }
+                        } else if !in_stack {
                             let mut want = 0u64;
                             let mut known = true;
                             for k in 0..c.width as u64 {
@@ -677,7 +726,14 @@ pub fn run(a: &Args, rep: &mut Report, cl: bool) {
                             Acc::Stx => STORE_VAL,
                             _ => 0,
                         };
-                        if !in_stack {
+                        if in_r1rel {
+                            // the internal buffer is not in the arena snapshots: nothing else may change
+                            if !changes.is_empty() {
+                                rep.violation(&format!("{prop}:wrong-store:{sigbase}"), format!("store into the internal buffer changed {} bytes of other memory", changes.len()), w);
+                            } else {
+                                rep.count("performed_ok");
+                            }
+                        } else if !in_stack {
                             let mut exp_changes: Vec<(u64, u8)> = Vec::new();
                             let mut old = 0u64;
                             for k in 0..c.width as u64 {
